@@ -21,8 +21,12 @@ RULE = ("sections with garbage, foreign-section lines and unsupported indices in
         "one warning per skipped line; random / mutated strings through all recognisers of a section: at most one accepts; "
         "non-trivial = ≥ 1 unparsable line; distinct by chart text / string")
 
-FOREIGN = ["  0 = B 120000", "  0 = TS 4", "  0 = A 5", "  0 = N 0 0", "  0 = S 2 5", "  0 = E solo", "  0 = E \"lyric x\"",
-           "  Resolution = 192", "  Name = \"x\"", "garbage", "", "  ", "  0 = S 64 10", "  0 = N 8 0", "  0 = E two words", "[Header]"]
+# (line, sections in which the documented format makes it parsable) — decided from the format, never by the code under test
+FOREIGN = [("  0 = B 120000", {"sync"}), ("  0 = TS 4", {"sync"}), ("  0 = A 5", {"sync"}), ("  0 = N 0 0", {"instrument"}),
+           ("  0 = S 2 5", {"instrument"}), ("  0 = E solo", {"instrument"}), ("  0 = E \"lyric x\"", {"events"}),
+           ("  0 = E \"x\"", {"events", "instrument"}), ("  Resolution = 192", set()), ("  Name = \"x\"", set()), ("garbage", set()),
+           ("", set()), ("  ", set()), ("  0 = S 64 10", set()), ("  0 = N 8 0", set()), ("  0 = N 9 48", set()), ("  0 = E two words", set()),
+           ("[Header]", set()), ("  0 = N 10 0", set()), ("  0 = S 0 5", set()), ("  0 = TS", set()), ("  0 = B x", set())]
 
 
 def body_count(R):
@@ -49,11 +53,11 @@ def slice(ctx: fw.Ctx) -> fw.Outcome:
         for t, b in secs:
             if t == "Song":
                 continue
-            kinds = ["bpm", "ts", "anchor"] if t == "SyncTrack" else ["lyric", "section", "text"] if t == "Events" else ["note", "sp", "te"]
+            sec = "sync" if t == "SyncTrack" else "events" if t == "Events" else "instrument"
             for _ in range(rng.choice([0, 1, 1, 2, 5])):
-                g = rng.choice(FOREIGN)
-                if any(lc.line_impl(k, g) != "none" for k in kinds):
-                    continue  # parsable here: not garbage for this section
+                g, parsable_in = rng.choice(FOREIGN)
+                if sec in parsable_in:
+                    continue  # parsable here by the documented format: not garbage for this section
                 b.insert(rng.randint(0, len(b)), g)
                 ins += 1
         lines = []
@@ -71,7 +75,7 @@ def slice(ctx: fw.Ctx) -> fw.Outcome:
         out.case("G" + fw.h(gtext), ins > 0, {"inserted": ins} if ins else None, tags=["garbage", f"ins{min(ins, 5)}"])
         out.traces += 2
         for x, y, t in ((x0, y0, base.text), (x1, y1, gtext)):
-            if x != y:
+            if common.framing_proj(x) != common.framing_proj(y):
                 p_, q_ = fw.first_diff(x, y)
                 out.corr_mismatch("chart with unparsable lines", common.chart_replay(t), impl=p_, model=q_)
         if x0.startswith("E "):
